@@ -300,6 +300,24 @@ func init() {
 			}
 		}
 		if m == nil {
+			o := r.W.Op(op.A)
+			inf := ctx.BlockHeight() - int64(op.E)
+			if inf < 0 {
+				inf = 0
+			}
+			factor, err := sdkmath.LegacyNewDecFromStr(op.S)
+			if err != nil {
+				factor = sdkmath.LegacyNewDecWithPrec(5, 2)
+			}
+			power := op.N
+			if power <= 0 {
+				power = 1
+			}
+			if perr := guard("SlashWithInfractionReason", func() {
+				r.Node.App.OperatorKeeper.SlashWithInfractionReason(ctx, o.Addr, inf, power, factor, infractionOf(op.D))
+			}); perr != nil {
+				r.abort("panic:direct-slash:" + PanicDisc(perr))
+			}
 			return
 		}
 		o := r.W.Op(op.A)
